@@ -63,12 +63,16 @@ def _delta(expr, series):
             and short(e.slice) == "-1"
     if last(expr):
         return 0
-    if isinstance(expr, ast.BinOp) and last(expr.left) and isinstance(expr.right, ast.Constant) \
-            and isinstance(expr.right.value, int):
-        if isinstance(expr.op, ast.Add):
-            return expr.right.value
-        if isinstance(expr.op, ast.Sub):
-            return -expr.right.value
+    if isinstance(expr, ast.BinOp) and last(expr.left) and isinstance(expr.op, (ast.Add, ast.Sub)):
+        r = expr.right
+        c = None
+        if isinstance(r, ast.Constant) and isinstance(r.value, int) and not isinstance(r.value, bool):
+            c = r.value
+        elif isinstance(r, ast.UnaryOp) and isinstance(r.op, (ast.USub, ast.UAdd)) and isinstance(r.operand, ast.Constant) \
+                and isinstance(r.operand.value, int) and not isinstance(r.operand.value, bool):
+            c = -r.operand.value if isinstance(r.op, ast.USub) else r.operand.value
+        if c is not None:
+            return c if isinstance(expr.op, ast.Add) else -c
     return None
 
 
@@ -630,6 +634,29 @@ def r9_discrete(repo, rep):
     rep.ob("R9", ok, "discrete_SIR: without a recovery test the whole generation moves to R", func=f, node=loop,
            construct="totR += len(infecteds) under test_recovery is None",
            detail="" if ok else "totR is not increased by len(infecteds) in the default-recovery arm")
+    # with a recovery test: ONE evaluation per infectious node decides between R (+1, history) and staying infectious
+    calls = [n for n in own_nodes(f.node) if isinstance(n, ast.Call) and short(n.func) == "test_recovery"]
+    okp = False
+    why = "test_recovery is called %d times" % len(calls)
+    if len(calls) == 1:
+        for c in walk_function(f.node):
+            st = c.stmt
+            if isinstance(st, ast.If) and st.test is calls[0] and c.loops and isinstance(c.loops[-1], ast.For) \
+                    and short(c.loops[-1].iter) == "infecteds" and len(calls[0].args) == 1 \
+                    and short(calls[0].args[0]) == short(c.loops[-1].target) \
+                    and any((not pol) and short(fx) == "test_recovery is None" for fx, pol in c.facts):
+                u = short(c.loops[-1].target)
+                yes = [short(x).replace(" ", "") for x in st.body]
+                no = [short(x).replace(" ", "") for x in st.orelse]
+                okp = "totR+=1" in yes and "new_infecteds.add(%s)" % u in no and "totR+=1" not in no \
+                    and not any(x.startswith("new_infecteds.add") for x in yes)
+                why = "arms: %s / %s" % (yes, no)
+    elif not calls:
+        why = "test_recovery is never called directly (handed to a helper or an iterator: how often it is evaluated per node is not visible)"
+    rep.ob("R9", okp, "discrete_SIR: a recovery test is evaluated once per infectious node and that one answer moves it to R (totR += 1) "
+           "or keeps it infectious", func=f, node=calls[0] if calls else loop, construct="recovery-test partition: %s" % okp,
+           detail="" if okp else "the partition of the old generation by test_recovery changed (%s): a stochastic or stateful test can now "
+           "put a node in both groups or in neither, and S+I+R drifts from N" % why)
     # the next generation replaces the current one
     for name in ("discrete_SIR", "basic_discrete_SIS"):
         g = repo.f(name)
